@@ -277,12 +277,21 @@ pub fn run_history(h: &History, full_from: usize, o: &Oracles, extra_paths: &[St
         let oo = if i >= full_from { *o } else { Oracles::LIGHT };
         let rep = r.step(op, &oo, extra_paths);
         res.steps += 1;
+        // the live object has not been reopened since a refused call: a result that now differs from the
+        // model's (which ignores refused calls) is also "a later result differs from what it would have
+        // been without the refused call" (C10)
+        let after_refusal = res.outcomes.iter().enumerate().any(|(j, oc)| oc.is_refusal() && !h.reopen_after[j..i].iter().any(|&b| b));
         res.outcomes.push(rep.outcome.clone());
         if !rep.problems.is_empty() {
             let mut sub = h.clone();
             sub.ops.truncate(i + 1);
             sub.reopen_after.truncate(i + 1);
-            res.violations.extend(to_violations(rep.problems, &sub));
+            let mut problems = rep.problems;
+            if after_refusal && o.refusal {
+                let extra: Vec<(String, String)> = problems.iter().filter(|(c, _)| c == "model").map(|(_, m)| ("refusal".to_string(), format!("after an earlier refused call in the same session a later result differs from the model: {}", m))).collect();
+                problems.extend(extra);
+            }
+            res.violations.extend(to_violations(problems, &sub));
         }
         if r.desync || r.poisoned {
             return res;
